@@ -65,4 +65,20 @@ def listAfter (seq : List LRef) : List LRef := seq.foldl (fun acc r => insertByP
 /-- the pinned (unrepaired) behaviour: append in resolution order -/
 def listAfterAppend (seq : List LRef) : List LRef := seq
 
+/-! ## list attributes under the resolver loop (C09)
+
+A list attribute of one object is given by its references `L` in textual
+order.  `resolve_one_step` keeps one position list per `(object, attribute)`
+(`_list_ref_positions[(id(obj), attr.name)]`), so the content of the attribute
+after the loop resolved the references in the sequence `seq` is `listAfter` of
+the attribute's own references, taken in the order they appear in `seq`;
+references of other objects / attributes do not take part. -/
+
+/-- the references of the list attribute `L` among `seq`, in resolution order -/
+def attrSeq (L : List LRef) (seq : List Ref) : List LRef :=
+  seq.filterMap (fun r => L.find? (fun l => l.id == r))
+
+/-- content of the list attribute `L` once the loop has resolved `seq` -/
+def attrAfter (L : List LRef) (seq : List Ref) : List LRef := listAfter (attrSeq L seq)
+
 end Resolve
